@@ -106,3 +106,18 @@ var SVGColorAttrs = set(`color fill stroke stop-color flood-color lighting-color
 
 // XML 1.0 §4.6 predefined entities.
 var XMLPredefinedEntities = map[string]string{"lt": "<", "gt": ">", "amp": "&", "apos": "'", "quot": "\""}
+
+// SVG 1.1 (second edition) attribute defaults relevant to the minifier's default-value
+// removal: §5.1.2 the svg element (x, y default "0"; version; baseProfile "none";
+// contentScriptType "application/ecmascript"; contentStyleType "text/css"),
+// §7.8 preserveAspectRatio default "xMidYMid meet", §6.2 style element type (default is
+// contentStyleType, i.e. "text/css"), XML 1.0 §2.10 xml:space default "default".
+var SVGDefaultAttrValues = map[string]string{
+	"x": "0", "y": "0", "version": "1.1", "baseProfile": "none",
+	"contentScriptType": "application/ecmascript", "contentStyleType": "text/css",
+	"preserveAspectRatio": "xMidYMid meet", "type": "text/css", "xml:space": "default",
+}
+
+var SVGDefaultWhy = map[string]string{
+	"xml:space": "xml:space=\"preserve\" switches white-space handling of text content; the default is \"default\"",
+}
